@@ -227,13 +227,19 @@ pub fn dump_container(c: &BorshSchemaContainer) -> String {
     o
 }
 
-fn maxsize_s(c: &BorshSchemaContainer) -> String {
+pub(crate) fn mserr_s(e: MErr) -> String {
+    match e {
+        MErr::Overflow => "err Overflow".to_string(),
+        MErr::Recursive => "err Recursive".to_string(),
+        MErr::MissingDefinition(d) => format!("err MissingDefinition {}", hex_of_name(&d)),
+    }
+}
+
+pub(crate) fn maxsize_s(c: &BorshSchemaContainer) -> String {
     match std::panic::catch_unwind(std::panic::AssertUnwindSafe(|| c.max_serialized_size())) {
         Err(_) => "panic".to_string(),
         Ok(Ok(n)) => format!("ok {}", n),
-        Ok(Err(MErr::Overflow)) => "err Overflow".to_string(),
-        Ok(Err(MErr::Recursive)) => "err Recursive".to_string(),
-        Ok(Err(MErr::MissingDefinition(d))) => format!("err MissingDefinition {}", hex_of_name(&d)),
+        Ok(Err(e)) => mserr_s(e),
     }
 }
 
